@@ -31,7 +31,11 @@ class IndexedGrammar:
         self.non_terminals = rules.non_terminals
         self.non_terminals.append(self.start_variable)
         self.non_terminals = set(self.non_terminals)
-        # We cache the marked items in case of future update of the query
+        self.marked = {}
+        self._initialize_marked()
+
+    def _initialize_marked(self):
+        """ The marked items before any rule is processed """
         self.marked = {}
         # Initialize the marked symbols
         # Mark the identity
@@ -155,6 +159,9 @@ class IndexedGrammar:
         is_empty : bool
             Whether the grammar is empty or not
         """
+        # The rules may have been modified since the last call (they can be
+        # removed), we cannot start from what was marked before
+        self._initialize_marked()
         # To know when no more modification are done
         was_modified = True
         while was_modified:
